@@ -43,6 +43,22 @@ PROPS = {
                      "empty and universal languages); Complement judged by isComplM (proved, both clauses); non-trivial = both "
                      "L(A) and L(C) non-empty",
                 assumptions=PROOF_ASSUME),
+    "C07": dict(level="proof", kinds=[("bddincl", 30), ("bddinclall", 1)], n=dict(quick=6000, thorough=120000, search=6000),
+                rule="the pairs of C01 (random / derived / split / correlated shapes) loaded from Timbuk text into both BDD "
+                     "encodings: top-down × {rec, rec+cache} × {no simulation, simulation computed by the library's bottom-up "
+                     "path for the sanitised operands}, bottom-up × {upward, downward+simulation, default overload}; each verdict "
+                     "judged against the proved reference inclM (hence equal to the explicit verdict, which C01 ties to the same "
+                     "reference); all 128 option words on both encodings must throw NotImplementedException unless implemented; "
+                     "non-trivial = L(A) non-empty",
+                assumptions=PROOF_ASSUME),
+    "C08": dict(level="proof", kinds=[("bddh", 6), ("bddtd", 1)], n=dict(quick=2500, thorough=50000, search=3000),
+                rule="histories over a pool of automata in one BDD encoding (bottom-up or top-down): load from Timbuk text, "
+                     "copy, assign, destroy, load into an existing automaton (AddTransition on a possibly shared table), "
+                     "SetStateFinal, Union, UnionDisjointStates, Intersection, RemoveUnreachableStates, RemoveUselessStates; "
+                     "after every step every live automaton is dumped; results judged by isUnionM / isIsectM / equivM / allUsefulB "
+                     "(proved), every other automaton must keep its language; plus bottom-up → top-down conversion; non-trivial "
+                     "= some intersection non-empty or conversion of a non-empty language",
+                assumptions=PROOF_ASSUME),
     "C09": dict(level="proof", kinds=[("nfah_incl", 1)], n=dict(quick=5000, thorough=100000, search=5000),
                 rule="pairs of NFAs (several start states, start∧final, dead / unreachable states, symbols in one operand only, "
                      "overlapping and sparse numbers; B mutated from / a nondeterministic split of A); antichains, congruence "
@@ -143,6 +159,10 @@ def nontrivial(prop, r):
         return "emptyA=0 emptyC=0" in v
     if prop == "C14":
         return "inj=0" in v
+    if prop == "C07":
+        return "emptyA=0" in v or c.startswith("bddinclall")
+    if prop == "C08":
+        return "isectempty=0" in v or "empty=0" in v
     if prop in ("C17", "C18"):
         return "applies=0" not in v
     if prop == "C11":
